@@ -637,6 +637,10 @@ class NN:
         if h == "comp" and c[1] in ("list", "gen", "set") and len(c[3]) == 1 and strip(c[2]) == c[3][0][0]:
             # [y for y in C if cond(y)]: a filtered copy of C
             return self.coll_space(q, c[3][0][0][3])
+        if h == "comp" and c[1] in ("list", "gen", "set") and len(c[3]) >= 2 and not any(cn for _, cn in c[3]) and any(strip(c[2]) == g_[0] for g_ in c[3]):
+            # {j for key in keys for j in D.get(key, ())} : the union of the collections the chosen binder ranges over
+            ce = next(g_[0] for g_ in c[3] if strip(c[2]) == g_[0])
+            return self.coll_space(q, ce[3])
         if is_call(c, "itertools.chain.from_iterable") and len(c[2]) == 1:
             # the union of the member collections: members of a comprehension whose element is a collection of positions
             inner = strip(c[2][0])
